@@ -230,12 +230,17 @@ class EllipsoidART(BaseART):
         dist = cache["dist"]
 
         radius_new = radius + (params["beta"] / 2) * (max(radius, dist) - radius)
-        centroid_new = centroid + (params["beta"] / 2) * (i - centroid) * (
-            1 - (min(radius, dist) / dist)
-        )
+        if dist > 0:
+            centroid_new = centroid + (params["beta"] / 2) * (i - centroid) * (
+                1 - (min(radius, dist) / dist)
+            )
+        else:
+            # the sample coincides with the centroid: nothing to move towards
+            centroid_new = centroid
 
-        if not radius == 0.0:
-            major_axis_new = (i - centroid_new) / np.sqrt(l2norm2((i - centroid_new)))
+        axis_norm = np.sqrt(l2norm2((i - centroid_new)))
+        if not radius == 0.0 and axis_norm > 0:
+            major_axis_new = (i - centroid_new) / axis_norm
         else:
             major_axis_new = major_axis
 
